@@ -266,25 +266,29 @@ AfterRestart(C, net) ==
                      !.ork = IF o /\ st[p].or = "offered" THEN "-" ELSE @]]
   /\ env' = [p \in P |-> [env[p] EXCEPT !.orph = @ \/ (net /\ env[p].started /\ st[p].ia \in {"none", "offered"}),
                                         !.umb = IF net THEN FALSE ELSE @]]
-  /\ b' = [p \in P |->
-       LET i == InCh(p) \in C  o == OutCh(p) \in C  r == b[p]
-           trimmed == IF o /\ r.circ = "open" /\ st[p].oa \in {"none", "offered"} THEN "half" ELSE r.circ IN
-       [r EXCEPT !.circ = trimmed,
-                 !.disk = IF net THEN trimmed # "none" ELSE @,
-                 !.clos = IF net THEN FALSE ELSE @,
-                 !.sw   = IF net \/ i THEN FALSE ELSE @,
-                 !.rt   = IF net THEN FALSE ELSE @,
-                 !.mbu  = IF net \/ i THEN FALSE ELSE @,
-                 !.mbo  = IF net THEN FALSE ELSE @,
-                 !.mbi  = IF net THEN "none" ELSE @,
-                 !.src  = IF net THEN "-" ELSE @,
-                 !.dref = IF net THEN FALSE ELSE @,
-                 !.pa   = IF net THEN FALSE ELSE @,
-                 !.ks   = IF o THEN FALSE ELSE @,
-                 !.cq   = IF i THEN (@ /\ st[p].ir = "signed") ELSE @,
-                 !.got  = IF o THEN (@ /\ st[p].or \in {"signed", "removed"}) ELSE @,
-                 !.rp   = IF i THEN TRUE ELSE @,
-                 !.rr   = IF o \/ net THEN TRUE ELSE @]]
+  \* O4: a reconnect of the incoming channel may catch ForwardPackets between CommitCircuits and the hand-over
+  \* to the forwarder (routeAsync gives up when the sending link stops): the packet is lost, the circuit stays
+  /\ \E L \in IF StrandQuirk /\ ~net THEN SUBSET {p \in P : InCh(p) \in C /\ b[p].rt} ELSE {{}} :
+     /\ hs' = [p \in P |-> [hs[p] EXCEPT !.strand = IF net THEN FALSE ELSE @ \/ p \in L]]
+     /\ b' = [p \in P |->
+          LET i == InCh(p) \in C  o == OutCh(p) \in C  r == b[p]
+              trimmed == IF o /\ r.circ = "open" /\ st[p].oa \in {"none", "offered"} THEN "half" ELSE r.circ IN
+          [r EXCEPT !.circ = trimmed,
+                    !.disk = IF net THEN trimmed # "none" ELSE @,
+                    !.clos = IF net THEN FALSE ELSE @,
+                    !.sw   = IF net \/ i THEN FALSE ELSE @,
+                    !.rt   = IF net \/ p \in L THEN FALSE ELSE @,
+                    !.mbu  = IF net \/ i THEN FALSE ELSE @,
+                    !.mbo  = IF net THEN FALSE ELSE @,
+                    !.mbi  = IF net THEN "none" ELSE @,
+                    !.src  = IF net THEN "-" ELSE @,
+                    !.dref = IF net THEN FALSE ELSE @,
+                    !.pa   = IF net THEN FALSE ELSE @,
+                    !.ks   = IF o THEN FALSE ELSE @,
+                    !.cq   = IF i THEN (@ /\ st[p].ir = "signed") ELSE @,
+                    !.got  = IF o THEN (@ /\ st[p].or \in {"signed", "removed"}) ELSE @,
+                    !.rp   = IF i THEN TRUE ELSE @,
+                    !.rr   = IF o \/ net THEN TRUE ELSE @]]
   \* O3: a restart may fall between a revocation and the signature its sender owes
   /\ IF OwedSigQuirk
      THEN \E S \in SUBSET {<<p, w>> \in P \X {"i", "o"} :
@@ -295,11 +299,11 @@ AfterRestart(C, net) ==
 
 NetRestart == /\ nNet < MaxNet /\ nNet' = nNet + 1
               /\ AfterRestart({"AB", "BC"}, TRUE)
-              /\ UNCHANGED <<pl, hs, nLink>>
+              /\ UNCHANGED <<pl, nLink>>
 
 LinkRestart(c) == /\ nLink < MaxLink /\ nLink' = nLink + 1
                   /\ AfterRestart({c}, FALSE)
-                  /\ UNCHANGED <<pl, hs, nNet>>
+                  /\ UNCHANGED <<pl, nNet>>
 
 -----------------------------------------------------------------------------
 Progress(p) == \/ U_Offer(p)
@@ -390,12 +394,12 @@ Quiescent == \A p \in P : ~ENABLED Progress(p)
 WithOwed == [p \in P |-> [hs[p] EXCEPT !.owed = stall[p].i \/ stall[p].o]]
 
 QuiescenceRules ==
-  Quiescent => /\ \A p \in P : \/ Untouched(p) \/ Settled(p) \/ FailedBack(p) \/ Held(p)
+  Quiescent => /\ \A p \in P : \/ Untouched(p) \/ Settled(p) \/ FailedBack(p) \/ Held(p) \/ Stranded(p)
                                \/ (OwedSigQuirk /\ \E q \in P : stall[q].i \/ stall[q].o)
                /\ (\A q \in P : ~stall[q].i /\ ~stall[q].o) => Conservation
                \* no circuit is left behind (a held payment keeps its open circuit)
                /\ (\A q \in P : ~stall[q].i /\ ~stall[q].o) =>
-                     \A p \in P : b[p].circ = "none" \/ (Held(p) /\ b[p].circ = "open")
+                     \A p \in P : b[p].circ = "none" \/ (Held(p) /\ b[p].circ = "open") \/ Stranded(p)
 
 \* Bob's own bookkeeping never contradicts the channel state
 MechanismOK == \A p \in P : b[p].circ = "open" => hs[p].dnOffered
